@@ -14,14 +14,13 @@ use mock_ts::{ERROR_KIND, K_COMMENT, K_IDENT, K_NUMBER};
 
 /// r0: kind ident (with fix); r1: kind comment; r2: any[number, comment]
 pub fn rules() -> [ast_grep_config::RuleConfig<HL>; 3] {
-  let any = SerializableRule {
-    any: Some(vec![kind_rule("number_"), kind_rule("comment")]).into(),
-    ..Default::default()
-  };
+  use crate::c14_scan::{kind_of_id, rule_config_direct};
+  use ast_grep_config::Rule;
+  use ast_grep_core::ops::Any;
   [
-    rule_config("r0", kind_rule("ident__"), true),
-    rule_config("r1", kind_rule("comment"), false),
-    rule_config("r2", any, false),
+    rule_config_direct("r0", kind_of_id(K_IDENT), true),
+    rule_config_direct("r1", kind_of_id(K_COMMENT), false),
+    rule_config_direct("r2", Rule::Any(Any::new([kind_of_id(K_NUMBER), kind_of_id(K_COMMENT)])), false),
   ]
 }
 
